@@ -58,8 +58,10 @@ pub fn observe(p: &Point) -> Result<Urg, String> {
         t.new_client(Uuid::nil())?;
         t.add_version(v1, Uuid::nil(), vec![1, 2, 3])?;
         if let Some(days) = p.days {
-            let within = [3600, 13 * 3600, 23 * 3600 + 1800][(p.since % 3) as usize];
-            let ts = chrono::Utc::now() - chrono::Duration::seconds(days * 86400 + within);
+            let now = chrono::Utc::now();
+            let since_midnight = now.timestamp().rem_euclid(86400);
+            let within = [3600, 13 * 3600, 23 * 3600 + 1800, (since_midnight + 30).min(86399)][(p.since % 4) as usize];
+            let ts = now - chrono::Duration::seconds(days * 86400 + within);
             t.set_snapshot(Snapshot { version_id: v1, timestamp: ts, versions_since: p.since }, vec![9, 9])?;
         }
         t.commit()
@@ -270,7 +272,7 @@ pub fn run(tier: Tier, seed: u64) -> Report {
         "exploration",
         "(1) threshold function: generated (snapshot_days, snapshot_versions, age in days, versions since) tuples - targets from {0,1,odd,even,2^k+-1,MAX/3+-1,MAX/2+-1,2MAX/3+-1,MAX-1,MAX} and random, measures around each threshold and at the extremes - each installed in a real server through the storage API and observed through one real AddVersion; oracle: the band stated in the property in 128-bit arithmetic (both low and high accepted at the one integer point per odd target where 1.5x target is not an integer), no panic, no error; plus a fixed grid of dangerous points. (2) metamorphic: growing either measure never lowers the urgency. (3) counters from real histories with small targets and aged snapshots on both backends and through HTTP. Non-trivial: within 2 of a threshold, or a target above MAX/3 of its type, or target 0/1/odd; distinct by tuple.",
     );
-    rep.assume("snapshot age is installed by rewriting the snapshot time through StorageTxn::set_snapshot to now - d*86400 s - (1 h | 13 h | 23.5 h), so num_days() is exactly d wherever in the day the snapshot falls");
+    rep.assume("snapshot age is installed by rewriting the snapshot time through StorageTxn::set_snapshot to now - d*86400 s - (1 h | 13 h | 23.5 h | back to just before the last UTC midnight), so num_days() is exactly d wherever in the day the snapshot falls");
     rep.assume("ages are bounded by what chrono can represent (90 million days); versions-since by u32::MAX-1");
     let r = engine::replay_dir::<Point, _>("C12", "point", check_point);
     rep.absorb("replay-tier-point", r);
